@@ -7,17 +7,21 @@ META = {
                  "Transport's pooled connections (grab / run / roundTrip / release) — for ALL event sequences and ALL response streams; trace acceptance: hook-recorded "
                  "C.* / T.* events of the real code under many goroutines against a scripted fake broker (reordering, delays, drops, duplicates, foreign ids, error codes, "
                  "slow/truncated bodies, closes, cancellations, deadlines) are replayed through the model's step function by a compiled Lean oracle, which also derives every "
-                 "call's result and evaluates the payload-tag equality monitor",
+                 "call's result and evaluates the payload-tag equality monitor; a byte-level model of the Fetch Batch (Model/BatchBytes.lean over Base/Reader: header, "
+                 "magic-0/1 messages, Read/ReadMessage callbacks, Close) with the theorem that a kept conn has consumed exactly the frame, and a generic theorem for every program in "
+                 "message_reader.go's size-threading discipline (Model/WireProg.lean); regenerated go/ast ties: 25 Boolean shape facts and 12 decision tables obtained by "
+                 "symbolic execution of waitResponse, do, doRequest, ApiVersions, ReadBatchWith, Batch.close, conn.run, RoundTrip and the pool functions, each recomputed from the models by `decide`",
     "level_claimed": {
         "category": "proof",
         "text": "Kernel-checked for every event sequence and every response stream (any order, duplicates, foreign ids): a call that obtains a frame obtained the frame at a "
                 "position nobody else obtained, whose correlation id is the id it wrote, and holds the read lock alone while parsing it; wire ids of calls less than 2^32 apart "
-                "differ; with a broker that labels frames truthfully the delivered payload tag is the request's tag; a pooled connection in the idle stack has consumed a response "
+                "differ; with a broker that labels frames truthfully the delivered payload tag is the request's tag and no waiter is ever stranded; a Batch that keeps its conn "
+                "has consumed exactly the declared frame on every read path (magic 0/1 byte-exact, every other reader by the size-threading discipline); a pooled connection in the idle stack has consumed a response "
                 "for every request written on it and never runs two exchanges at once; an abandoned call's frame is never delivered to another call.",
         "design_ref": "DESIGN.md §7 C06",
     },
-    "level_note": "Trusted: Lean kernel; propext/Classical.choice/Quot.sound; the hand-written models Model/ConnMux.lean and Model/TransportConn.lean, tied to conn.go / batch.go / "
-                  "transport.go by trace acceptance on sampled schedules (hooks `verif hooks:` b23b539, 5911b5b); atomicity of each event = the mutex that brackets the hooked "
+    "level_note": "Trusted: Lean kernel; propext/Classical.choice/Quot.sound; the hand-written models Model/ConnMux.lean, Model/TransportConn.lean, Model/BatchBytes.lean, tied to conn.go / batch.go / "
+                  "transport.go by regenerated decision tables and shape facts (go/extract/muxfacts, which is trusted to read the syntax tree correctly) and by trace acceptance on sampled schedules (hooks `verif hooks:` b23b539, 5911b5b); atomicity of each event = the mutex that brackets the hooked "
                   "statements (wlock, rlock, connGroup.mutex, the single run goroutine per conn); frames are consumed whole or the Conn is closed (C11's alignment; D2 fixed); "
                   "the fake broker and its journal; goroutine ids are read from runtime.Stack to attribute C.Write events to harness calls.",
 }
@@ -34,6 +38,9 @@ def run(ctx):
         "each event is atomic: it sits inside the critical section of wlock / rlock / connGroup.mutex, or in the single goroutine that owns a pooled connection",
     ]
     broken = []
+    ok, log = ctx.extract("muxfacts", ["lean/KafkaVerif/Gen/MuxFacts.lean"])
+    if not ok:
+        broken.append({"kind": "obligation", "name": "translator go/extract muxfacts", "detail": log[-1500:]})
     res = ctx.prove(MODULE)
     if not res["ok"]:
         broken.append({"kind": "obligation", "theorems": res["failed"], "detail": res["reasons"][:10]})
@@ -54,6 +61,8 @@ def run(ctx):
                 continue
             op, impl = l.split("\t", 1)
             w = op.split(" ")
+            if w[0] == "bb":
+                outcomes["bb:" + impl.split(";")[1]] = outcomes.get("bb:" + impl.split(";")[1], 0) + 1
             if w[0] in ("mux", "tconn") and len(w) > 2:
                 evs = [w[0] + "." + (e[0] + (e[e.rfind(":"):] if (e[0] in "FD" or (w[0] == "tconn" and e[0] == "L")) else "")) for e in w[2].split(",") if e and e != "-"]
                 for e in evs:
@@ -66,7 +75,13 @@ def run(ctx):
         ctx.coverage["event_bigrams"] = len(bigrams)
         ctx.coverage["call_outcomes"] = outcomes
         ctx.coverage["distinct_nontrivial"] = len(bigrams)
-    ctx.coverage["rule"] = ("Buffered stress: 8 goroutines × 60 (thorough 400) barrier-synchronised ReadOffset(tag) rounds on one Conn over a unix socketpair, 6 (20) scenarios; "
+    ctx.coverage["rule"] = ("Byte-level (op bb): 160 (thorough 1600) single Fetch exchanges on a fresh Conn — fetch v2/v5/v10 headers, 0–3 magic-0/1 messages with null/empty/random "
+                            "keys and values, some below the fetch offset; truncated last message, stream ending inside the frame, set-size mismatch, watermark = offset, partition "
+                            "errors, a following frame; 0–4 ReadMessage / Read(cap) calls with capacities around the value lengths, then Close — results, Close error, conn kept and "
+                            "bytes consumed compared with Model/BatchBytes.fetchBatch; monitor: a kept conn consumed exactly the declared frame. "
+                            "Fetch family: one caller, fetch v2/v5/v10 × MaxBytes {1MiB, 64, 200, 1} × keyed/unkeyed, Batch read through rm / rdF / rdsmall / rdexact / rdlarge mixes, each "
+                            "followed by a tagged ReadOffset; value tails and skipped bytes spell a frame for the next correlation id with a foreign tag. "
+                            "Buffered stress: 8 goroutines × 60 (thorough 400) barrier-synchronised ReadOffset(tag) rounds on one Conn over a unix socketpair, 6 (20) scenarios; "
                             "Conn: 1–6 goroutines × 1–4 calls (ReadOffset(tag), ReadPartitions(t<tag>), ReadBatchWith(MaxWait=tag) holding the read lock) on one Conn over net.Pipe; "
                             "the broker holds 1..n requests and answers fifo / reversed / shuffled with gaps; faults by request index: drop, error code, header-then-late-body, "
                             "truncated body + close, close; single-caller scenarios add frames with foreign ids and duplicates; conn-wide deadlines 40–120 ms. "
